@@ -30,6 +30,7 @@ class Term:
         self.tags = set()        # e.g. 'key' (usable as hash table key), 'cyclic'
         self.near = []           # terms worth comparing with (different but similar)
         self.lit = None          # datum syntax of an atom, if it has one
+        self.nest = None         # symbolic deep term: dict(shape, k, leaf Term, aux [Terms]) (see Equiv!NestGraph)
 
     def add(self, expr, fresh=0, layout="plain", lkind=None):
         if all(r.expr != expr for r in self.routes):
@@ -448,6 +449,30 @@ class Catalogue:
             t.add("'" + lit, 0, "literal")
             t.add("(from-port %s)" % sstr(lit), 0, "read")
 
+    # ------------------------------------------------------------------ deeply nested terms (symbolic)
+    DEEP = {"lt": ("pair", "nested-list", "deep-lt"), "vf": ("vec", "nested-vector", "deep-vf"), "car": ("pair", "nested-carlist", "deep-car")}
+
+    def deep(self, shape, k, leaf):
+        """Nest(shape, k, leaf) of Equiv.tla: the leaf wrapped k times; declared symbolically, never unfolded."""
+        cls, kind, fn = self.DEEP[shape]
+        key = (cls, ("deep", shape, k, leaf.id))
+        t = self.by_canon.get(key)
+        if t is not None:
+            return t
+        t = Term(cls, kind, key[1])
+        t.id = len(self.terms) + 1
+        self.terms.append(t)
+        self.by_canon[key] = t
+        aux = {"lt": [self.int_(1), self.null], "vf": [self.flo(1.5)], "car": [self.null]}[shape]
+        t.nest = dict(shape=shape, k=k, leaf=leaf, aux=aux)
+        t.tags.update(("key", "deep"))
+        le = leaf.routes[0].expr
+        t.add("(%s %d %s)" % (fn, k, le), 1, "deep")
+        t.add("(%s2 %d %s)" % (fn, k, le), 1, "deep")
+        if k >= 3:
+            t.add("(%s %d (%s2 %d %s))" % (fn, k - k // 3, fn, k // 3, le), 1, "deep")
+        return t
+
     # ------------------------------------------------------------------ cyclic terms
     def cyclic(self, name, nodes, routes, near=()):
         """nodes: list of (k, atom Term|None, [child idx]) ; routes: list of expr (all fresh)."""
@@ -628,6 +653,14 @@ class Catalogue:
         wv.add("(let ((v (make-vector %d #f))) (let lp ((i 0)) (when (< i %d) (vector-set! v i (list (spare 7 2))) (lp (+ i 1)))) v)" % (nw, nw), 1)
         wv2.add("(let ((v (vector-map (lambda (x) (list 7)) (make-vector %d 0)))) (vector-set! v %d (list 8)) v)" % (nw, nw - 1), 1)
         wv.near += [wv2]
+        # the 60-fold (list x 1) nest written out as a graph: compared with the symbolic Nest("lt", 60, a)
+        dn = Term("pair", "deep-list", ("nestgraph", 60, "a"))
+        dn.id = len(self.terms) + 1
+        self.terms.append(dn)
+        self.by_canon[(dn.cls, dn.canon)] = dn
+        dn.nodes = self.nest_nodes(60, self.sym("a"), I(1), False)
+        dn.add("(nest1 60 'a)", 1).add("(list (nest1 59 (string->symbol \"a\")) 1)", 1)
+        self.nest_graph_60 = dn
         self.big_terms = [ll, ll2, lv, dl, dl2, dv]
         self.wide_terms = [wv, wv2]
         # ---- cyclic data (every route allocates; the graphs are written out by hand)
@@ -690,6 +723,8 @@ class Catalogue:
     # ------------------------------------------------------------------ trace declarations
     def graph_json(self, t, local):
         """Term event payload; `local` maps catalogue term -> id used in this trace."""
+        if t.nest is not None:
+            return []
         if t.nodes is None:
             return [{"k": "atom", "a": local[t], "c": []}]
         out = []
@@ -704,7 +739,11 @@ class Catalogue:
         def visit(t):
             if t in seen:
                 return
-            if t.nodes is not None:
+            if t.nest is not None:
+                visit(t.nest["leaf"])
+                for a in t.nest["aux"]:
+                    visit(a)
+            elif t.nodes is not None:
                 for k, a, ch in t.nodes:
                     if a is not None:
                         visit(a)
